@@ -50,6 +50,7 @@ func c15Case(c *core.Ctx) {
 	x1, x2, x3, x4 := gr4jParams(c.R)
 	T := c.R.IntRange(5, 120)
 	rain, pet := rainSeries(c.R, T), petSeries(c.R, T)
+	rrPatterns(c.R, rain, pet)
 	hot := c.R.Bool(0.4)
 	ps := PSet{{x1}, {x2}, {x3}, {x4}}
 	run := &MRun{Model: "GR4J", N: 1, T: T, Sets: []PSet{ps}, Inputs: [][][]float64{{rain, pet}}}
@@ -174,7 +175,9 @@ func c15Multi(c *core.Ctx) {
 	for i := 0; i < N; i++ {
 		x1, x2, x3, x4 := gr4jParams(c.R)
 		run.Sets = append(run.Sets, PSet{{x1}, {x2}, {x3}, {x4}})
-		run.Inputs = append(run.Inputs, [][]float64{rainSeries(c.R, T), petSeries(c.R, T)})
+		rn, pe := rainSeries(c.R, T), petSeries(c.R, T)
+		rrPatterns(c.R, rn, pe)
+		run.Inputs = append(run.Inputs, [][]float64{rn, pe})
 		refs[i] = newGR4JRef(x1, x2, x3, x4)
 		widths[int(math.Ceil(x4))+int(math.Ceil(2*x4))] = true
 	}
@@ -251,6 +254,42 @@ func sortInts(a []int) {
 	for i := 1; i < len(a); i++ {
 		for j := i; j > 0 && a[j] < a[j-1]; j-- {
 			a[j], a[j-1] = a[j-1], a[j]
+		}
+	}
+}
+
+// rrPatterns puts, into half of the rainfall/PET series, value patterns that independent draws never form: rainfall equal
+// to PET, a steady spell, one series on a plateau, and a wet day of net rain x followed by a dry day of net demand x.
+func rrPatterns(r *core.Rand, rain, pet []float64) {
+	T := len(rain)
+	if T < 4 || !r.Bool(0.5) {
+		return
+	}
+	for k := r.IntRange(1, 4); k > 0; k-- {
+		t := r.Intn(T - 3)
+		switch r.Intn(5) {
+		case 0:
+			pet[t] = rain[t]
+		case 1:
+			w := minInt(T, t+r.IntRange(3, 12))
+			for u := t + 1; u < w; u++ {
+				rain[u], pet[u] = rain[t], pet[t]
+			}
+		case 2:
+			w := minInt(T, t+r.IntRange(3, 8))
+			for u := t + 1; u < w; u++ {
+				pet[u] = pet[t]
+			}
+		case 3:
+			x := rain[t] + r.Range(0.5, 20)
+			rain[t], pet[t] = x, 0
+			rain[t+1], pet[t+1] = 0, x
+		default:
+			x := r.Range(0.5, 20)
+			base := r.Range(0, 5)
+			rain[t], pet[t] = base+x, base
+			rain[t+1], pet[t+1] = base, base+x
+			rain[t+2], pet[t+2] = base+x, base
 		}
 	}
 }
